@@ -312,8 +312,11 @@ func (f *File) Write(b []byte) (n int, err error) {
 }
 
 func (f *File) WriteAt(b []byte, off int64) (n int, err error) {
+	prev := atomic.LoadInt64(&f.at)
 	atomic.StoreInt64(&f.at, off)
-	return f.Write(b)
+	n, err = f.Write(b)
+	atomic.StoreInt64(&f.at, prev)
+	return
 }
 
 func (f *File) WriteString(s string) (ret int, err error) {
